@@ -165,6 +165,19 @@ pub fn stub_from_utf8(v: &[u8]) -> Result<&str, std::str::Utf8Error> {
     }
 }
 
+/// Stand-in for core's internal `memchr` (used by `str::splitn(_, char)` through `CharSearcher`):
+/// the word-at-a-time scan with `align_offset` is what exhausts the solver; same contract, byte loop.
+pub fn stub_core_memchr(x: u8, text: &[u8]) -> Option<usize> {
+    let mut i = 0;
+    while i < text.len() {
+        if text[i] == x {
+            return Some(i);
+        }
+        i += 1;
+    }
+    None
+}
+
 /// text accessors: succeed exactly when the bytes are valid UTF-8 and return the same bytes
 /// (WHICH: 0 id(), 1 desc(), 2 id_desc() - one real UTF-8 validation per harness)
 macro_rules! text_harness {
@@ -269,6 +282,14 @@ harnesses! {
     /// @meta props=C13 tier=quick kind=R timeout=900 mem=12 unwind=4 bounds="FASTQ desc() on every header of <= 2 arbitrary bytes (2-byte UTF-8 sequences, invalid bytes, space); core::str::from_utf8 stubbed by an explicit 2-byte validator"
     #[kani::stub(std::str::from_utf8, crate::c13::stub_from_utf8)]
     c13_fq_text_desc => fq_text_desc;
+    /// @meta props=C13 tier=quick kind=R timeout=900 mem=12 unwind=5 bounds="FASTQ id_desc() on every header of <= 2 arbitrary bytes (2-byte UTF-8 sequences, invalid bytes, space); core::str::from_utf8 stubbed by an explicit 2-byte validator and core's internal memchr (CharSearcher of str::splitn) by a byte loop"
+    #[kani::stub(std::str::from_utf8, crate::c13::stub_from_utf8)]
+    #[kani::stub(core::slice::memchr::memchr, crate::c13::stub_core_memchr)]
+    c13_fq_text_both => fq_text_both;
+    /// @meta props=C13 tier=quick kind=R timeout=900 mem=12 unwind=5 bounds="FASTA id_desc() on every header of <= 2 arbitrary bytes (2-byte UTF-8 sequences, invalid bytes, space); core::str::from_utf8 stubbed by an explicit 2-byte validator and core's internal memchr (CharSearcher of str::splitn) by a byte loop"
+    #[kani::stub(std::str::from_utf8, crate::c13::stub_from_utf8)]
+    #[kani::stub(core::slice::memchr::memchr, crate::c13::stub_core_memchr)]
+    c13_fa_text_both => fa_text_both;
     /// @meta props=C13 tier=quick kind=R timeout=1500 mem=12 unwind=12 bounds="FASTQ record from parts under the record invariant: buffer <= 10 symbolic bytes, valid record; RefRecord, OwnedRecord"
     c13_fq_views => fq_views;
 }
